@@ -59,7 +59,16 @@ func forEachClosures(c *an.Ctx) map[*ssa.Function]ssa.CallInstruction {
 			}
 			switch a := args[0].(type) {
 			case *ssa.MakeClosure:
-				out[a.Fn.(*ssa.Function)] = k
+				cb := a.Fn.(*ssa.Function)
+				// a method value (self.flushEntry): go/ssa wraps it; the callback is the method itself
+				if cb.Synthetic != "" && strings.Contains(cb.Synthetic, "bound method") {
+					for _, kk := range an.Calls(cb) {
+						if m := kk.Common().StaticCallee(); m != nil && m.Synthetic == "" {
+							cb = m
+						}
+					}
+				}
+				out[cb] = k
 			case *ssa.Function:
 				out[a] = k
 			default:
@@ -430,10 +439,11 @@ func runC04(c *an.Ctx) {
 	// (1) tombstone routing at every ForEach consumer
 	n := 0
 	for cb, site := range forEachClosures(c) {
-		if len(cb.Params) != 2 {
+		if len(cb.Params) < 2 || len(cb.Params) > 3 {
 			continue
 		}
-		key, val := ssa.Value(cb.Params[0]), ssa.Value(cb.Params[1])
+		// (key, value) are the last two parameters (a method used as callback has its receiver first)
+		key, val := ssa.Value(cb.Params[len(cb.Params)-2]), ssa.Value(cb.Params[len(cb.Params)-1])
 		var dels, puts []ssa.Instruction
 		for _, k := range an.Calls(cb) {
 			o := an.CalleeObj(k.Common())
@@ -558,6 +568,9 @@ func runC04(c *an.Ctx) {
 		c.Undecide("anchor|JoinIter fields", "anchors must resolve", "-", "not found")
 		return
 	}
+	// units: the low-level positioning steps have rules of their own below
+	mustFunc(c, odb+".(*JoinIter).first")
+	mustFunc(c, odb+".(*JoinIter).next")
 	for _, q := range []string{odb + ".(*JoinIter).First", odb + ".(*JoinIter).Next"} {
 		fn := mustFunc(c, q)
 		if fn == nil {
@@ -567,15 +580,23 @@ func runC04(c *an.Ctx) {
 			eq, ok := lenCmpZero(x, func(a ssa.Value) bool { return fieldOfLoad(a) == valueField })
 			return ok && eq
 		}}
-		v := an.Guarded(c.P, fn, []*an.Guard{tomb}, func(in ssa.Instruction) bool {
-			r, ok := in.(*ssa.Return)
-			if !ok || len(r.Results) != 1 {
-				return false
+		// with the emptiness test always true, every return of fn that is still reachable yields false (the value
+		// is evaluated in the state, so `return iter.skipDeleted()` is judged by what the helper can return)
+		bad, nRet := "", 0
+		sites := an.RunAllFail(fn, []*an.Guard{tomb}, nil, false, func(r *an.Result) {
+			for _, ret := range an.Returns(fn) {
+				if len(ret.Results) != 1 {
+					continue
+				}
+				nRet++
+				for _, st := range r.StatesAt(ret) {
+					if v, isB := r.Eval(ret.Results[0], st).IsBool(); !(isB && !v) {
+						bad = "a return that may be true is reachable although the entry's value is empty: " + r.Witness(c.P, st)
+					}
+				}
 			}
-			k, isK := r.Results[0].(*ssa.Const)
-			return !isK || k.Value == nil || k.Value.String() == "true"
-		}, false)
-		c.Check(v.Holds && v.GuardSites >= 1 && v.ActionSites >= 1, "iterator|"+an.FuncName(fn)+"|skips-tombstones", "the merge iterator stops (returns true) only on an entry with a non-empty value", c.P.Rel(fn.Pos()), v.Witness)
+		})
+		c.Check(bad == "" && sites >= 1 && nRet >= 1, "iterator|"+an.FuncName(fn)+"|skips-tombstones", "the merge iterator stops (returns true) only on an entry with a non-empty value", c.P.Rel(fn.Pos()), bad)
 	}
 	for _, q := range []string{odb + ".(*JoinIter).first", odb + ".(*JoinIter).next"} {
 		fn := mustFunc(c, q)
@@ -594,26 +615,35 @@ func runC04(c *an.Ctx) {
 		}
 		r := (&an.Query{Fn: fn, Start: cmpCall, Assume: map[ssa.Value]an.Abs{cmpCall.Value(): an.AInt(0)}}).Run()
 		okVal, okOrigin, nVal, nOrigin := true, true, 0, 0
-		for _, b := range fn.Blocks {
+		// stores in fn or in a private helper (setCurrent(key, value, origin)); the stored value is taken in the
+		// calling context in which the store is reached on the equal-key path
+		var blocks []*ssa.BasicBlock
+		for _, g := range an.InlineReach(fn) {
+			blocks = append(blocks, g.Blocks...)
+		}
+		for _, b := range blocks {
 			for _, in := range b.Instrs {
 				st, ok := in.(*ssa.Store)
-				if !ok || !r.Reaches(st) {
+				if !ok {
 					continue
 				}
-				switch an.FieldOf(st.Addr) {
-				case valueField:
-					nVal++
-					good := false
-					for _, s := range an.AllSources(st.Val) {
-						if k, isC := an.Origin(s).(*ssa.Call); isC && k.Call.IsInvoke() && k.Call.Method.Name() == "Value" && fieldOfLoad(k.Call.Value) == memItField {
-							good = true
+				for _, state := range r.StatesAt(st) {
+					val := r.ActualAt(st.Val, state)
+					switch an.FieldOf(st.Addr) {
+					case valueField:
+						nVal++
+						good := false
+						for _, s := range an.AllSources(val) {
+							if k, isC := an.Origin(s).(*ssa.Call); isC && k.Call.IsInvoke() && k.Call.Method.Name() == "Value" && fieldOfLoad(k.Call.Value) == memItField {
+								good = true
+							}
 						}
+						okVal = okVal && good
+					case originField:
+						nOrigin++
+						k, isK := val.(*ssa.Const)
+						okOrigin = okOrigin && isK && k.Value != nil && k.Value.String() == "2"
 					}
-					okVal = okVal && good
-				case originField:
-					nOrigin++
-					k, isK := st.Val.(*ssa.Const)
-					okOrigin = okOrigin && isK && k.Value != nil && k.Value.String() == "2"
 				}
 			}
 		}
